@@ -101,6 +101,7 @@ def strategy(tier: str):
             "registry": _registry(),
             "ops": ops,
             "mode": st.sampled_from(("steps", "steps", "queue")),
+            "listen_mode": st.sampled_from(("fresh", "persistent")),
         }
     )
 
